@@ -6,6 +6,10 @@
 (* operators.  Batch protocol as in FormulaTrace: Init picks a trace id, every chain ends in  *)
 (* verdict "accept" or "reject" and prints exactly one VERDICT line.                          *)
 (*                                                                                            *)
+(* A history on one system object is recorded as Query / Reorder events between the           *)
+(* observations; every observation is judged against the substance order current at that     *)
+(* point (Reorder permutes subs and every vector over them).                                  *)
+(*                                                                                            *)
 (* Observation encodings (binding layer): integers and Fractions exactly (<<n, d>>); the      *)
 (* drift of an integration as ceil(|B.y(t) - B.c0| * 10^12) per row, capped at 2*10^9.        *)
 EXTENDS Conservation, IOUtils
@@ -59,6 +63,10 @@ Step(e) ==
                                 /\ (e.complete => FormsComplete(subs, forms))
                                 /\ forms' = <<>> /\ UNCHANGED vars
       [] e.ev = "SetState"   -> SetState(e.c) /\ UNCHANGED forms
+      [] e.ev = "Query"      -> Query(e.kind) /\ UNCHANGED forms
+      [] e.ev = "Reorder"    -> Reorder(e.p) /\ UNCHANGED forms
+      [] e.ev = "Names"      -> /\ stage \in {"built", "dyn"} /\ e.names = [i \in 1..NS |-> subs[i].name]
+                                /\ UNCHANGED <<vars, forms>>
       [] e.ev = "Integrated" -> /\ stage = "dyn" /\ last = "set" /\ Len(e.dev) = Len(KeySeq(subs))
                                 /\ DriftOK(e.dev) /\ UNCHANGED <<vars, forms>>
       [] e.ev = "Bounds"     -> /\ stage = "dyn" /\ last = "set" /\ QSeq(e.ub) = Bounds(subs, c)
@@ -107,6 +115,7 @@ Clause ==
               ELSE IF Norm(e.u[e.elim]) # QOne THEN "lindep-not-solved-for"
               ELSE "lindep-not-an-invariant"
         [] e.ev = "LinDepDone" -> IF ~(stage \in {"built", "dyn"}) THEN "step:LinDepDone" ELSE "lindep-incomplete"
+        [] e.ev = "Names" -> IF ~(stage \in {"built", "dyn"}) THEN "step:Names" ELSE "substance-order"
         [] e.ev = "Integrated" ->
               IF ~(stage = "dyn" /\ last = "set") \/ Len(e.dev) # Len(KeySeq(subs)) THEN "step:Integrated"
               ELSE "drift"
